@@ -3,6 +3,11 @@
    mode 0: the schedule lists task ids, polled in that order, then round-robin to completion.
    mode 1: wake-driven executor (each schedule entry picks among the currently woken tasks);
            the third field is then the sequence of polled tasks.
+   mode 2: concurrent HttpSymbolSupplier::locate_file calls; lookup kind = FileKind (0 BreakpadSym, 1 Binary,
+           2 ExtraDebugInfo); per key: susp = server delay, outc = bit mask "server has the file of kind i";
+           log = file keys 3*key+kind fetched from the server (sorted); results S<file key> / E.
+   mode 3: mode 1 plus drops: a pick 100+u drops task u if it is waiting for a lock.
+   mode 4: the tasks are the children of one futures_util::future::join_all; last field = parent polls.
    output: OK;log;midreq/midproc/middone;results;req/proc;stats;rounds
      log = keys joined by '.' ('-' if empty); results = tasks joined by '|', lookups by '.',
      each S<key> (symbols of that key) or E; stats = leaf:loaded:corrupt joined by ',' *)
@@ -24,14 +29,16 @@ let () =
         let next () = let t = toks.(!pos) in incr pos; int_of_string t in
         let mode = next () in
         let nt = next () in
-        let ts = List.init nt (fun _ ->
+        let ts_raw = List.init nt (fun _ ->
           let nl = next () in
-          List.init nl (fun _ -> let k = next () in let _kind = next () in nat_of_int k)) in
+          List.init nl (fun _ -> let k = next () in let kind = next () in (k, kind))) in
+        let ts = List.map (List.map (fun (k, _) -> nat_of_int k)) ts_raw in
         let nk = next () in
-        let scripts = List.init nk (fun _ ->
+        let keys_raw = List.init nk (fun _ ->
           let su = next () in let oc = next () in let cf = next () in
-          let _ = next () in let _ = next () in let _ = next () in
-          ((nat_of_int su, outcome_of_int oc), nat_of_int leaf_of_cf.(cf))) in
+          let ci = next () in let df = next () in let di = next () in (su, oc, cf, ci, df, di)) in
+        let scripts = if mode = 2 then [] else List.map (fun (su, oc, cf, _, _, _) ->
+          ((nat_of_int su, outcome_of_int oc), nat_of_int leaf_of_cf.(cf))) keys_raw in
         let ns = next () in
         let sched = List.init ns (fun _ -> next ()) in
         let b = Buffer.create 256 in
@@ -50,14 +57,34 @@ let () =
           add (pres (o_results o)); add ";";
           add (pn (o_req o) ^ "/" ^ pn (o_proc o)); add ";";
           add (pstats (o_stats o)); add ";"; add (pn (o_rounds o))
+        end else if mode = 2 then begin
+          (* file mode: per file key 3*key+kind: lookup(module, kind) exists, fetch delay, server has it *)
+          let fscripts = List.concat (List.map (fun (su, mask, cf, ci, df, di) ->
+            List.map (fun kind ->
+              let lk = (match kind with
+                        | 1 -> cf <> 0 && ci <> 0 && df <> 0 && di <> 0
+                        | _ -> df <> 0 && di <> 0) in
+              ((lk, nat_of_int su), (mask lsr kind) land 1 = 1)) [0; 1; 2]) keys_raw) in
+          let fts = List.map (List.map (fun (k, kind) -> (nat_of_int k, nat_of_int kind))) ts_raw in
+          let o = run_fcase fts fscripts in
+          let has_lk fk = (match List.nth_opt fscripts fk with Some ((lk, _), _) -> lk | None -> false) in
+          if w_fuel o then add "HUNG;" else add "OK;";
+          let log = List.sort compare (List.filter has_lk (List.map int_of_nat (w_log o))) in
+          add (join "." string_of_int log); add ";-;";
+          add (pres (w_results o)); add ";-;-;0"
         end else begin
-          let o = run_wcase ts scripts (nat_of_int nleaf) (List.map nat_of_int sched) in
+          let picks = List.map nat_of_int sched in
+          let o = (match mode with
+                   | 1 -> run_wcase ts scripts (nat_of_int nleaf) picks
+                   | 3 -> run_dcase ts scripts (nat_of_int nleaf) picks
+                   | _ -> run_jcase ts scripts (nat_of_int nleaf)) in
           if w_lost o then add "LOST;" else if w_fuel o then add "HUNG;" else add "OK;";
           add (join "." pn (w_log o)); add ";";
-          add (join "." pn (w_trace o)); add ";";
+          add (if mode = 4 then "-" else join "." pn (w_trace o)); add ";";
           add (pres (w_results o)); add ";";
           add (pn (w_req o) ^ "/" ^ pn (w_proc o)); add ";";
-          add (pstats (w_stats o)); add ";0"
+          add (pstats (w_stats o)); add ";";
+          add (if mode = 4 then join "." pn (w_trace o) else "0")
         end;
         print_endline (Buffer.contents b)
       end
